@@ -81,6 +81,7 @@ union keywords {
     uint8_t is_byte : 1;
     uint8_t is_word : 1;
     uint8_t is_dword : 1;
+    uint8_t is_qword : 1;
   };
   uint8_t is_keyword;
 };
